@@ -7,6 +7,7 @@ mod c05;
 mod c06;
 mod c07;
 mod c08;
+mod c08a;
 mod consts;
 mod gad;
 mod c09;
